@@ -5,6 +5,7 @@ package fixture
 
 import (
 	"errors"
+	"fmt"
 	"os"
 	"strings"
 	"sync"
@@ -333,4 +334,61 @@ func splitIndexWeak(v string) string {
 		return parts[1]
 	}
 	return ""
+}
+
+// ---- E-CLEANUP: release on failure returns ----
+type res struct{}
+
+func (r *res) Close() error { return nil }
+func open1() (*res, error)  { return &res{}, nil }
+func step() error           { return nil }
+
+func cleanupBad() (*res, error) {
+	r, err := open1()
+	if err != nil {
+		return nil, err
+	}
+	if err := step(); err != nil {
+		r.Close()
+		return nil, err
+	}
+	if err := step(); err != nil {
+		return nil, err // leaks r although the earlier failure return closes it
+	}
+	return r, nil
+}
+
+func cleanupGood() (*res, error) {
+	r, err := open1()
+	if err != nil {
+		return nil, err
+	}
+	if err := step(); err != nil {
+		return nil, err // earlier than any releasing return: states nothing
+	}
+	if err := step(); err != nil {
+		r.Close()
+		return nil, err
+	}
+	if err := step(); err != nil {
+		r.Close()
+		return nil, err
+	}
+	return r, nil
+}
+
+// ---- data as format ----
+func formatBad(s string) string  { return fmt.Sprintf(s) }
+func formatGood(s string) string { return fmt.Sprintf("%s", s) }
+
+// ---- lock never released ----
+func lockLeakHelper(b *box) {
+	b.mu.Lock()
+	b.n++
+}
+
+func lockLeakLoop(b *box) {
+	for i := 0; i < 3; i++ {
+		lockLeakHelper(b)
+	}
 }
